@@ -70,7 +70,15 @@ variables with an oracle that probes every clause, (xxxiii) names containing the
 (xxxiv) an operation after a caught panic of a user closure, (xxxv) a quantifier right after a call that gave up,
 (xxxvi) limited operators with output flips among the canonicity families, (xxxvii) `cardinality()` of accepted foreign
 arrays. One first-run "miss" was a CRASH of the comparator on an unexpected `Some(..)` (C17): comparator exceptions are
-now reported as violations (`no-failing-input-found`) instead of ending the check without a verdict.
+now reported as violations (`no-failing-input-found`) instead of ending the check without a verdict; from the seventh wave
+(`*-w7-*`, 30 changes, 23 caught by the first run — two of them by a neighbouring property's check): (xxxviii) node counts
+that are exact multiples of 256/512 and runs of 8..100 consecutive interruptions for the serialisers, (xxxix) long
+malformed text records with multi-byte characters at fixed byte offsets, (xl) quantifier lists forming one contiguous block
+of 16..40 variables, (xli) a trigger closure that itself runs a nested apply, (xlii) diagrams above 1,000 nodes for the
+dot export, (xliii) repeated literals in sorted `select` lists inside histories. A second first-run "miss" was again the
+machinery: a change that makes the library request 100 GB took the harness PROCESS down (CHECK-ERROR, no verdict); the
+transcript is now flushed after every case, a dead process is the outcome `ABORT` for the case it died in (a confirmed
+violation) and the shard resumes with the next program.
 
 | seeded change | property | needs | caught | by |
 |---|---|---|---|---|
